@@ -174,8 +174,8 @@ fn c18_def() -> PropDef {
             Record::Sim(s) => check(s, c),
             _ => Verdict::harness("wrong record kind".into()),
         },
-        candidates: |rec| match rec {
-            Record::Sim(s) => simcore::shrink::candidates(s).into_iter().map(Record::Sim).collect(),
+        candidates: |rec, coarse| match rec {
+            Record::Sim(s) => simcore::shrink::candidates_staged(s, coarse).into_iter().map(Record::Sim).collect(),
             _ => vec![],
         },
         runs_quick: 60_000,
